@@ -33,6 +33,17 @@ func corpusSpecs() []*Spec {
 		mk("k-close-while-reader-in-handleErr", false, Action{Op: "lost"}, st("reader"), st("reader"), st("reader"), st("reader"), Action{Op: "call", Kind: "Close", T: "close"}, st("close"), st("close"), st("close")),
 		mk("k-stale-lookup-then-unsub", true, srv("next", 0), st("reader"), st("reader"), Action{Op: "call", Kind: "Unsubscribe", T: "unsub0", Sub: 0}, st("unsub0"), st("reader"), st("reader")),
 		mk("k-unsub-after-close", false, Action{Op: "call", Kind: "Close", T: "close"}, st("close"), st("close"), st("close"), Action{Op: "call", Kind: "Unsubscribe", T: "unsub0", Sub: 0}, st("unsub0")),
+		// a late `next` for a subscription the application has left must be swallowed, also after a
+		// further Subscribe: the other subscriptions go on receiving
+		mk("k-late-next-after-resubscribe", true, Action{Op: "call", Kind: "Unsubscribe", T: "unsub0", Sub: 0}, st("unsub0"),
+			Action{Op: "call", Kind: "Subscribe", T: "sub1"}, st("sub1"),
+			srv("next", 0), st("reader"), st("reader"), st("reader"),
+			srv("next", 1), st("reader"), st("reader"), st("reader"), Action{Op: "recv", Sub: 1},
+			srv("next", 1), st("reader"), st("reader"), st("reader"), Action{Op: "recv", Sub: 1}),
+		mk("k-late-next-after-server-complete-and-resubscribe", true, srv("complete", 0), st("reader"), st("reader"), st("reader"), st("reader"),
+			Action{Op: "call", Kind: "Subscribe", T: "sub1"}, st("sub1"),
+			srv("next", 0), st("reader"), st("reader"), st("reader"),
+			srv("next", 1), st("reader"), st("reader"), st("reader"), Action{Op: "recv", Sub: 1}),
 		{ID: "k-close-write-fails", FailAfterClose: true, Actions: append(append(append([]Action{}, start...), sub0...), Action{Op: "call", Kind: "Close", T: "close"}, st("close"), st("close"), st("close"))},
 	}
 }
